@@ -547,6 +547,12 @@ def work(share):
 def replay(case):
     os.environ["COLUMNS"] = "80"
     os.environ["LINES"] = "25"
+    if case.get("baseline"):
+        try:
+            ref_pages(["solo"])
+        except RuntimeError as e:
+            return report.viol("baseline:reference-run-broken", str(e), case)
+        return None
     vs, info = run_case(case)
     if info["tokens"] != case.get("tokens", info["tokens"]):
         raise RuntimeError("engine error: replay rebuilt a different line")
@@ -559,14 +565,26 @@ def main():
     rep = report.Report(PID, "exploration")
     lines, ka, ua, ub = plan(rep.tier, rep.seed)
 
-    # engine self-checks: the reference pages differ per command, both raising baselines print a report
-    pages = {tuple(l[:p]): ref_pages(l[:p])["help_out"] for l, p in lines}
-    if len(set(pages.values())) != len(pages):
-        raise RuntimeError("engine error: reference help pages of different commands coincide")
-    for variant in VARIANTS[1:]:
-        base = execute(["solo"], variant)
-        if "boom" not in base["out"] + base["err"] or len(base["recs"]) != 1:
-            raise RuntimeError("engine error: the %s baseline prints no error report: %r" % (variant, base))
+    # the references every later comparison rests on, built on the tree under test WITHOUT any switch: `help <path>` must
+    # print a help page of that command (different per command), a raising handler must produce a report.  When the tree
+    # under test fails here that is itself a violation (reported under its own signature), and nothing else can be judged.
+    try:
+        pages = {tuple(l[:p]): ref_pages(l[:p])["help_out"] for l, p in lines}
+        broken = None if len(set(pages.values())) == len(pages) else "the pages `help <path>` prints for different commands coincide"
+    except RuntimeError as e:
+        broken = str(e).replace("engine error: ", "")
+    if broken is None:
+        for variant in VARIANTS[1:]:
+            base = execute(["solo"], variant)
+            if "boom" not in base["out"] + base["err"] or len(base["recs"]) != 1:
+                broken = "the switch-free run of a raising handler (%s) prints no error report: %r" % (variant, base)
+    if broken:
+        rep.violation(report.viol("baseline:reference-run-broken", broken, {"tokens": ["help", "solo"], "baseline": True}, "a help page per command / an error report", broken[:400]))
+        rep.set("evaluations", 1)
+        rep.set("distinct_nontrivial", 0)
+        rep.set("exhaustive", False)
+        rep.set("rule", "aborted: the switch-free reference runs are already wrong")
+        return rep.finish()
 
     us = ua + ub
     shares = par.chunks([(i, u, i < len(ua) and len(u[3]) <= 2) for i, u in enumerate(us)], common.ncpu() * 4)
